@@ -20,9 +20,12 @@
 
    The last four are refutations: computed cuts of the model at which value is inflated / stranded / the mint cannot start;
    the c07-cuts stream replays them (and every other cut) on the real mint; they are listed in known_findings.json.
+   swap_cut_states / mint_cut_states: the exact sets of stores reachable by cutting a Swap / MintTokens anywhere under any storage errors.
+   no_inflation_with_cuts: cut_item = any request run to completion, or a request other than MeltTokens / melt-quote poll / state check cut
+   or faulted anywhere, or a concurrent batch of swaps and reads under any schedule; for cuts of the excluded three the inequality is false (refutations).
 *)
 From Coq Require Import ZArith List Bool.
-From Verif Require Import Model Sem InvDb InvSwap InvMint InvMelt Corollaries Queries Footprint HRel Global GlobalQuote GlobalValue GlobalErr GlobalQuery GlobalMelt GlobalKeys Cuts CutOrder Conc Races GlobalBalance GlobalLedger Reconf Trace Admin AdminProofs.
+From Verif Require Import Model Sem InvDb InvSwap InvMint InvMelt Corollaries Queries Footprint HRel Global GlobalQuote GlobalValue GlobalErr GlobalQuery GlobalMelt GlobalKeys Cuts CutOrder Conc Races GlobalBalance GlobalLedger Reconf GlobalPoll Trace Admin AdminProofs CutValue CutMint CutFrames ConcValue CutHistory CutBalance.
 Import ListNotations.
 Open Scope Z_scope.
 
@@ -142,6 +145,58 @@ Theorem C07_melt_ordered : forall (cfg : config) (mem_ks : list ksrow) (id : Z) 
        ordered (ev_mark_pending id) ev_pay false (melt_tokens cfg mem_ks id ins).
 Proof. exact @melt_ordered. Qed.
 Print Assumptions C07_melt_ordered.
+
+Theorem C07_swap_cut_states : forall (mem_ks : list ksrow) (active : Z) (ins : list proof) (outs : list bmsg) 
+         (sg : bool) (n : nat) (f : oracle) (w : world),
+       cut_state mem_ks ins outs w (fst (run_n n (swap mem_ks active ins outs sg) f w)).
+Proof. exact @swap_cut_states. Qed.
+Print Assumptions C07_swap_cut_states.
+
+Theorem C07_swap_cut_no_value_created : forall (mem_ks : list ksrow) (active : Z) (ins : list proof) (outs : list bmsg) 
+         (sg : bool) (n : nat) (f : oracle) (w : world),
+       Forall (fun x : Z => 0 <= x < two64) (map b_amount outs) ->
+       let w' := fst (run_n n (swap mem_ks active ins outs sg) f w) in vS w' - vS w <= vR w' - vR w.
+Proof. exact @swap_cut_no_value_created. Qed.
+Print Assumptions C07_swap_cut_no_value_created.
+
+Theorem C07_mint_cut_states : forall (mem_ks : list ksrow) (active id : Z) (outs : list bmsg) (sig : Z) (n : nat) (f : oracle) (w : world),
+       mint_cut_state id outs w (fst (run_n n (mint_tokens mem_ks active id outs sig) f w)).
+Proof. exact @mint_cut_states. Qed.
+Print Assumptions C07_mint_cut_states.
+
+Theorem C07_no_inflation_with_cuts : forall (cfg : config) (h : list hitem),
+       cfg_ok cfg ->
+       Forall cut_item h ->
+       hhonest cfg world0 h ->
+       Forall item_u64 h ->
+       let w := hrun cfg world0 h in
+       let
+       '(_, _, cred) := htrace cfg world0 h [] [] in
+        vS w + vOut w <= vR w + per_quote (fun m : mquote => esett w m + cnt (mq_id m) cred) (d_mq (w_db w)) /\
+        (forall q : lquote,
+         In q (d_lq (w_db w)) -> lq_state q = 1 -> lq_amount q + lq_fee q <= rows_sum (lq_id q) (w_db w)) /\
+        (forall q : lquote, In q (d_lq (w_db w)) -> lq_state q <> 1 -> rows_of_quote (lq_id q) (w_db w) = []).
+Proof. exact @no_inflation_with_cuts. Qed.
+Print Assumptions C07_no_inflation_with_cuts.
+
+Theorem C07_cut_history_ok : let cfg := {| c_max_mint := 0; c_max_melt := 0; c_max_balance := 0; c_mpp := false; c_feepct := 2 |} in
+       Forall cut_item cut_history /\
+       Forall item_u64 cut_history /\
+       hhonest cfg world0 cut_history /\
+       (let w := hrun cfg world0 cut_history in
+        (vS w, vR w, vOut w, map mq_state (d_mq (w_db w))) = (128, 112, 0, [3; 3; 3; 3])).
+Proof. exact @cut_history_ok. Qed.
+Print Assumptions C07_cut_history_ok.
+
+Theorem C07_balance_never_negative_with_cuts : forall (cfg : config) (h : list hitem),
+       Forall seq_cut_item h ->
+       hclients_honest cfg world0 h [] ->
+       let w := hrun cfg world0 h in
+       vR w + vP w <= vS w /\
+       (vS w < two63 ->
+        exists w' : world, run total_balance no_fault w = (w', Done (Ok (vS w - vR w))) /\ 0 <= vS w - vR w).
+Proof. exact @balance_never_negative_with_cuts. Qed.
+Print Assumptions C07_balance_never_negative_with_cuts.
 
 Theorem C07_crash_in_settle_inflates : let w := hrun cfg0 world0 cut_melt_history in
        issuedZ w = 128 /\
